@@ -133,6 +133,7 @@ def build_world(tmpdir, small=False):
     W["ignore"] = ["-", ".", "CGH"]
     W["thresholds"] = [-1.1, -0.25, 0.2, 0.7]
     W["chrom_sizes"] = {"chr1": 500, "chr2": 500, "chr3": 500}
+    W["chrom_ids"] = {"chr1": 1, "chr2": 2, "chr3": 3}  # a caller's chromosome numbering that does not know chrX
     W["stats_loc"] = ["mean", "median"]
     W["stats_spread"] = ["stdev", "mad", "iqr"]
     W["stats_interval"] = ["ci", "pi"]
@@ -228,6 +229,7 @@ OPS = {
     "export-vcf": lambda W: export.export_vcf(W["cns_called"], 2, False, None, True, "S1"),
     "export-vcf-cnarr": lambda W: export.export_vcf(W["cns_called"], 2, False, None, True, "S1", W["cnr"]),
     "export-seg": lambda W: export.export_seg([W["cns_file"]]),
+    "export-seg-ids": lambda W: export.export_seg([W["cns_file"]], W["chrom_ids"]),
     "export-theta": lambda W: export.export_theta(W["cns"], W["cnr"]),
     "center-median": _center("median"),
     "center-mean-flat": _center("mean", by_chrom=False, skip_low=True),
